@@ -18,31 +18,23 @@ def run(ctx: Ctx):
 
     # ---- R12.a liveness provenance ---------------------------------------------------------
     ctx.rule("R12.a", "every removal predicate is `name in ODE.dependents()`, and dependents() records every dependency of every assignment of every component, unfiltered", floor=5)
+    from sa import av as _av
+
+    from . import util
+    from .c03 import _branches as _br12
+
     dep = sm.func("ode.py", "ODE.dependents")
-    fors = [n for n in ast.walk(dep.node) if isinstance(n, ast.For)]
-    iters = [norm(f.iter) for f in fors]
-    want = ["self.components", "component.assignments", "assignment.value.dependencies"]
-    ok = len(fors) == 3 and iters[0].endswith("components") and iters[1].endswith(".assignments") and iters[2].endswith(".value.dependencies")
-    ctx.check(ok, "R12.a", dep.key("loops"), "components x assignments x dependencies", f"ODE.dependents iterates {iters}, expected every dependency of every assignment of every component ({want})", dep.where())
-    # nothing filters: the only conditional may be the None-value guard that raises
-    bad = []
-    for n in ast.walk(dep.node):
-        if isinstance(n, (ast.Continue, ast.Break)):
-            bad.append(norm(n))
-        if isinstance(n, ast.If):
-            if not all(isinstance(s, (ast.Raise, ast.Assign, ast.Expr)) and (isinstance(s, ast.Raise) or True) for s in n.body) or not any(isinstance(s, ast.Raise) for s in n.body) or n.orelse:
-                bad.append("if " + norm(n.test))
-        if isinstance(n, (ast.ListComp, ast.GeneratorExp, ast.SetComp, ast.DictComp)) and any(g.ifs for g in n.generators):
-            bad.append(norm(n)[:60])
-    ctx.check(not bad, "R12.a", dep.key("unfiltered"), "no assignment or dependency is skipped", f"ODE.dependents skips something: {bad}; a name that is read could be reported as unused", dep.where())
-    stores = [n for n in ast.walk(dep.node) if isinstance(n, ast.Call) and isinstance(n.func, ast.Attribute) and n.func.attr == "add" and isinstance(n.func.value, ast.Subscript)]
-    oks = False
-    if stores and len(fors) == 3:
-        st = stores[0]
-        dvar = fors[2].target.id if isinstance(fors[2].target, ast.Name) else None
-        avar = fors[1].target.id if isinstance(fors[1].target, ast.Name) else None
-        oks = norm(st.func.value.slice) == dvar and st.args and norm(st.args[0]) == f"{avar}.name"
-    ctx.check(oks, "R12.a", dep.key("record"), "dependents[dependency].add(assignment.name)", "ODE.dependents does not record dependents[dependency].add(assignment.name)", dep.where())
+    dv = util.value_of(ctx, dep)
+    table = [x for c, x in _br12(dv) if x[0] != "raise"]
+    REF_DEP = ("comp", 1, ("sym", "self.components"), (("spread", ("comp", 2, ("attr", ("bv", 1), "assignments"), (("spread", ("comp", 3, ("attr", ("attr", ("bv", 2), "value"), "dependencies"), (("kadd", ("bv", 3), ("attr", ("bv", 2), "name")),), ())),), ())),), ())
+    if len(table) != 1:
+        ctx.undecided("R12.a", dep.key("record"), f"what ODE.dependents returns is not understood ({_av.show(dv)[:100]})", dep.where())
+    else:
+        vd = util.verdict(table[0], [REF_DEP])
+        if vd == "unknown":
+            ctx.undecided("R12.a", dep.key("record"), f"the table built by ODE.dependents is not understood ({_av.show(table[0])[:120]})", dep.where())
+        else:
+            ctx.check(vd == "ok", "R12.a", dep.key("record"), "dependents[dependency].add(assignment.name) for every dependency of every assignment of every component, unfiltered", f"ODE.dependents builds {_av.show(table[0])[:200]}, not dependency +: assignment.name for every dependency of every assignment of every component: a name that is read could be reported as unused", dep.where())
 
     from sa import av as _av
 
@@ -65,20 +57,31 @@ def run(ctx: Ctx):
 
     from . import util
 
-    sa_f = util.nf(ctx, "ode.py", "ODE.sorted_assignments")
-    tests = []
-    for n in ast.walk(sa_f.node):
-        if isinstance(n, ast.Compare) and len(n.ops) == 1 and isinstance(n.ops[0], (ast.In, ast.NotIn)) and norm(n.left).endswith(".name"):
-            tests.append((n, util.ctext(sa_f, n.comparators[0])))
-    live = [t for t in tests if t[1] in ("self.dependents()", "self.dependents().keys()", "set(self.dependents())", "set(self.dependents().keys())", "frozenset(self.dependents())")]
-    other = [t for t in tests if t not in live and "unused" not in t[1] and "dependents" in t[1]]
-    okf = bool(live) and not other
-    # the tested element ranges over the intermediates
-    if okf:
-        var = norm(live[0][0].left)[: -len(".name")]
-        rng = [util.ctext(sa_f, l.iter) for l in ast.walk(sa_f.node) if isinstance(l, (ast.For, ast.comprehension)) and isinstance(l.target, ast.Name) and l.target.id == var]
-        okf = bool(rng) and all(r in ("self.intermediates", "intermediates") for r in rng)
-    ctx.check(okf, "R12.a", sa_f.key("filter"), "an intermediate is dropped iff its name is not in self.dependents()", "ODE.sorted_assignments: the unused-filter is not a membership test of an intermediate's name in self.dependents()", sa_f.where())
+    sa_f = sm.func("ode.py", "ODE.sorted_assignments")
+    sv12 = util.value_of(ctx, sa_f)
+    inner = _av._unwrap_seq(sv12)
+    while inner[0] == "call" and inner[1] in ("tuple", "list") and len(inner[2]) == 1:
+        inner = _av._unwrap_seq(inner[2][0])
+    ru = ("sym", "remove_unused")
+    key12 = sa_f.key("filter")
+    if inner[0] != "comp" or _av.has_unk(sv12):
+        ctx.undecided("R12.a", key12, f"what ODE.sorted_assignments returns is not understood ({_av.show(sv12)[:100]})", sa_f.where())
+    else:
+        bv = ("bv", 1)
+        deps_t = ("mcall", ("sym", "self"), "dependents", (), ())
+        unused = ("comp", 2, ("sym", "self.intermediates"), (("attr", ("bv", 2), "name"),), (_av.mk_cmp("not in", ("attr", ("bv", 2), "name"), deps_t),))
+        wants = [
+            (_av.mk_if(ru, _av.mk_cmp("not in", bv, unused), _av.C(True)),),
+            # equivalently: keep a name iff it is not an intermediate without dependents, expressed on the atom
+        ]
+        conds = inner[4]
+        vd = "ok" if conds in wants else ("unknown" if _av.has_unk(conds) else "bad")
+        # a recognisable variation: the filter tests the assignment's own liveness directly
+        if vd == "bad" and len(conds) == 1 and conds[0][0] == "if" and conds[0][1] == ru and conds[0][3] == _av.C(True) and "dependents" in _av.show(conds[0][2]) and "intermediates" not in _av.show(conds[0][2]) and "Intermediate" not in _av.show(conds[0][2]):
+            why = f"the filter `{_av.show(conds[0][2])[:120]}` is not restricted to intermediates (state derivatives without dependents would be dropped)"
+        else:
+            why = f"the filter is `{_av.show(conds[0])[:160] if conds else 'absent'}`"
+        ctx.check(vd == "ok", "R12.a", key12, "an intermediate is dropped iff remove_unused and its name is not in self.dependents()", f"ODE.sorted_assignments: {why}; expected: drop a name iff remove_unused and it is the name of an intermediate that is not in self.dependents()", sa_f.where())
 
     # ---- R12.b reads covered -----------------------------------------------------------------
     ctx.rule("R12.b", "only rhs filters the state unpacking; scheme / monitor_values / missing_values unpack every state; unpack helpers are pure", floor=8)
